@@ -49,6 +49,7 @@ EXEMPT = {
     "bits::bits_to_words|Overflow(Add)|": "documented `# Panics`: n + 63 > usize::MAX; n is a bit length that is about to be allocated",
     "raw_vector::RawVector::with_capacity|": "capacity is an allocation size",
     "sparse_vector::SparseBuilder::new|unwrap|int_vector::IntVector::with_len": "with_len fails only for an invalid width; the width comes from get_params: round(log2(n ln2 / m)) clamped below by 1 and at most 64 for every n < 2^64 (float computation, reviewed)",
+    "sparse_vector::SparseBuilder::multiset|unwrap|int_vector::IntVector::with_len": "the same call in the other constructor (reached with raw values when `new` delegates to it): the width is get_params(..).0",
 }
 
 
